@@ -31,8 +31,11 @@ def gen(rng, tier):
     for _ in range(nrand):
         ln = rng.choice([3, 4, 7, 8, 9, 16, 33, 64, 255, 1024, 65536 if tier == "thorough" else 4096])
         B = rng.randbytes(ln)
-        for pm in range(8):
-            for nm in range(8):
+        pairs = [(pm, nm) for pm in range(8) for nm in range(8)]
+        if ln > 4096:                      # very large buffers: a sample of the residue pairs keeps the literal volume bounded
+            pairs = rng.sample(pairs, 6)
+        for pm, nm in pairs:
+            if True:
                 base_p = 8 * rng.randrange(0, max(1, ln - 1))
                 p = base_p + pm
                 maxn = 8 * ln - p
